@@ -147,12 +147,26 @@ type lcUncomparable struct{ fields []string }
 func (e lcUncomparable) Error() string { return "planned uncomparable error" }
 
 func (r *lcRun) doPanic(t *f1testing.T) {
-	v := r.pick("panic", 13)
+	v := r.pick("panic", 14)
 	// every other behaviour panics the same way each time: the same worker recovers the same kind of value repeatedly
 	if r.stickyPanic >= 0 {
 		v = r.stickyPanic
 	}
 	switch v {
+	case 13:
+		// the work is split over two helper goroutines that report on ONE channel, each guarded by CheckResults(t, done);
+		// the function waits for both; the quick one is fine, the slow one panics
+		done := make(chan struct{})
+		go func() {
+			defer f1testing.CheckResults(t, done)
+		}()
+		go func() {
+			defer f1testing.CheckResults(t, done)
+			time.Sleep(3 * time.Millisecond)
+			panic(errors.New("planned panic in the slower of two helper goroutines"))
+		}()
+		<-done
+		<-done
 	case 11:
 		panic([]byte("planned panic with a byte slice"))
 	case 12:
